@@ -169,7 +169,7 @@ func init() {
 		tcodec := []string{"proto", "json", "alt"}[c.Free("target-codec", 3)]
 		comp := []string{"", "gzip"}[c.Free("compression", 2)]
 		msg := MkMsg(c19Msgs[c.Free("message", len(c19Msgs))])
-		delta := c.Free("limit-delta", 4) // 0: generous, 1: exact-1, 2: exact, 3: exact+1
+		delta := c.Free("limit-delta", 4)      // 0: generous, 1: exact-1, 2: exact, 3: exact+1
 		spelling := c.Free("path-spelling", 2) // 1: the client percent-escapes unreserved characters of the RPC path
 		if cl.form == wire.REST && (m.name != "Pure" || ccodec != "json") {
 			c.Skip()
